@@ -237,4 +237,10 @@ def check(ctx: Ctx) -> str:
         calls_ = {astq.callee(c) for c in astq.calls(v_)}
         ok_ti = ctr in reads and reads <= {ctr, "self", "str"} and all(f == "str" or f.endswith(".format") for f in calls_)
     ctx.check(ok_ti, "temporary_identifier", "compiler:CodeGenerator.temporary_identifier", "counter based", "temporary identifiers must be numbered by a counter", ti.loc())
+    # output is a function of template and context only: no filter writes into a shared
+    # policy / argument object, which would make a render depend on the renders before it
+    # (rule owned by C29)
+    from . import c29
+
+    ctx.run_imported("C29", {"R1"}, c29.check)
     return __doc__ or ""
